@@ -85,11 +85,14 @@ def sortAttrs {β : Type} (as : List (AttrKey × β)) : List (AttrKey × β) :=
     let (lo, hi) := acc.span (fun x => x.1.lt kd.1 || x.1 == kd.1)
     lo ++ [kd] ++ hi) []
 
+/-- float token; every NaN is printed as one canonical pattern (the harness does the same) -/
+def fHexN (x : Float) : String := if x != x then "7ff8000000000001" else Driver.fHex x
+
 def showMesh (m : MV) : String :=
   let idx := m.indices.map toString
   let mats := m.materials.flatMap fun r => [toString r.count, toString r.mat]
   let attrs := (sortAttrs m.attrs).flatMap fun kd =>
-    [toString kd.1.width, kd.1.name, toString kd.2.length] ++ kd.2.flatMap (fun v => v.map Driver.fHex)
+    [toString kd.1.width, kd.1.name, toString kd.2.length] ++ kd.2.flatMap (fun v => v.map fHexN)
   " ".intercalate (["M", toString m.topology.toNat, toString idx.length] ++ idx ++
     [toString m.materials.length] ++ mats ++ [toString m.attrs.length] ++ attrs)
 
